@@ -136,24 +136,24 @@ Proof.
     destruct H as [Ho _]. exfalso. exact (N j Ho).
 Qed.
 
-(* the corrected index: position in code points of the first occurrence, or -1 *)
-Lemma index_fixed_spec s sub :
-  (forall i, index_fixed s sub = Z.of_nat i <-> FirstOcc sub s i) /\
-  (index_fixed s sub = (-1)%Z <-> NoOcc sub s).
+(* index: position in code points of the first occurrence, or -1 *)
+Lemma index_chars_spec s sub :
+  (forall i, index_chars s sub = Z.of_nat i <-> FirstOcc sub s i) /\
+  (index_chars s sub = (-1)%Z <-> NoOcc sub s).
 Proof.
-  unfold index_fixed. split.
+  unfold index_chars. split.
   - intros i. rewrite <- index_cp_some_iff. destruct (index_cp s sub).
     + split; [intros H; f_equal; lia | intros [= ->]; reflexivity].
     + split; [lia | discriminate].
   - rewrite <- index_cp_none_iff. destruct (index_cp s sub); split; try reflexivity; try discriminate; lia.
 Qed.
 
-(* the code's index: the same occurrence, measured in bytes of the prefix *)
-Lemma index_bytes_spec s sub :
-  (forall i, FirstOcc sub s i -> index_bytes s sub = Z.of_nat (utf8_len (firstn i s))) /\
-  (index_bytes s sub = (-1)%Z <-> NoOcc sub s).
+(* index before 79c1bbb: the same occurrence, measured in bytes of the prefix *)
+Lemma index_bytes_before_fix_spec s sub :
+  (forall i, FirstOcc sub s i -> index_bytes_before_fix s sub = Z.of_nat (utf8_len (firstn i s))) /\
+  (index_bytes_before_fix s sub = (-1)%Z <-> NoOcc sub s).
 Proof.
-  unfold index_bytes. split.
+  unfold index_bytes_before_fix. split.
   - intros i F. apply index_cp_some_iff in F. rewrite F. reflexivity.
   - rewrite <- index_cp_none_iff. destruct (index_cp s sub); split; try reflexivity; try discriminate; lia.
 Qed.
@@ -179,10 +179,10 @@ Qed.
 
 (* on ASCII prefixes the two coincide; they differ exactly when a non-ASCII
    character precedes the occurrence *)
-Lemma index_bytes_eq_fixed_iff s sub i :
-  FirstOcc sub s i -> (index_bytes s sub = index_fixed s sub <-> Forall (fun c => (c < 128)%N) (firstn i s)).
+Lemma index_bytes_before_fix_eq_iff s sub i :
+  FirstOcc sub s i -> (index_bytes_before_fix s sub = index_chars s sub <-> Forall (fun c => (c < 128)%N) (firstn i s)).
 Proof.
-  intros F. pose proof F as F'. apply index_cp_some_iff in F. unfold index_bytes, index_fixed. rewrite F.
+  intros F. pose proof F as F'. apply index_cp_some_iff in F. unfold index_bytes_before_fix, index_chars. rewrite F.
   rewrite <- utf8_len_ascii. destruct F' as [(a & b & -> & Hl) _].
   subst i. rewrite firstn_exact. lia.
 Qed.
@@ -538,9 +538,26 @@ Variable o : oracles.
 Definition IdentSpec (k : str) : Prop :=
   exists c t, k = c :: t /\ is_letter_ o c = true /\ Forall (fun x => is_letter_ o x = true \/ is_digit_ x = true) t.
 
-Lemma is_ident_fixed_spec k : is_ident_fixed o k = true <-> IdentSpec k.
+Definition ident_rest (t : str) : bool := forallb (fun c => is_letter_ o c || is_digit_ c) t.
+
+Lemma is_ident_loop_false t : is_ident_loop o false t = ident_rest t.
 Proof.
-  unfold is_ident_fixed, IdentSpec. destruct k as [|c t].
+  induction t as [|c t IH]; [reflexivity|]. simpl. rewrite <- IH.
+  destruct (is_letter_ o c), (is_digit_ c); reflexivity.
+Qed.
+
+(* the loop of lexer.IsIdent computes: first character a letter/underscore, the
+   rest letters, digits, underscores *)
+Lemma is_ident_unfold k :
+  is_ident o k = match k with [] => false | c :: t => is_letter_ o c && ident_rest t end.
+Proof.
+  destruct k as [|c t]; [reflexivity|]. unfold is_ident. simpl.
+  rewrite is_ident_loop_false. destruct (is_letter_ o c); reflexivity.
+Qed.
+
+Lemma is_ident_spec k : is_ident o k = true <-> IdentSpec k.
+Proof.
+  rewrite is_ident_unfold. unfold IdentSpec, ident_rest. destruct k as [|c t].
   - split; [discriminate | intros (c & t & H & _); discriminate].
   - rewrite andb_true_iff, forallb_forall. split.
     + intros [Hc Ht]. exists c, t. split; [reflexivity|]. split; [exact Hc|].
@@ -549,25 +566,18 @@ Proof.
       rewrite Forall_forall in Ht. apply orb_true_iff. apply Ht, Hx.
 Qed.
 
-Lemma is_ident_loop_false_spec t :
-  is_ident_loop o false t = forallb (fun c => is_letter_ o c || is_digit_ c) t.
+Lemma is_ident_loop_before_fix_false t : is_ident_loop_before_fix o false t = ident_rest t.
 Proof.
   induction t as [|c t IH]; [reflexivity|]. simpl. rewrite <- IH.
   destruct (is_letter_ o c), (is_digit_ c); reflexivity.
 Qed.
 
-(* the code's IsIdent: the FIRST character is never examined *)
-Lemma is_ident_code_spec k :
-  is_ident o k = match k with [] => false | _ :: t => forallb (fun c => is_letter_ o c || is_digit_ c) t end.
+(* before 09cb4c8 the FIRST character was never examined *)
+Lemma is_ident_before_fix_unfold k :
+  is_ident_before_fix o k = match k with [] => false | _ :: t => ident_rest t end.
 Proof.
-  destruct k as [|c t]; [reflexivity|]. unfold is_ident. simpl.
-  rewrite andb_false_r. apply is_ident_loop_false_spec.
-Qed.
-
-(* it agrees with the corrected one exactly on strings whose first character is fine *)
-Lemma is_ident_agrees k c t : k = c :: t -> is_letter_ o c = true -> is_ident o k = is_ident_fixed o k.
-Proof.
-  intros -> Hc. rewrite is_ident_code_spec. unfold is_ident_fixed. rewrite Hc. reflexivity.
+  destruct k as [|c t]; [reflexivity|]. unfold is_ident_before_fix. simpl.
+  rewrite andb_false_r. apply is_ident_loop_before_fix_false.
 Qed.
 
 Lemma esc_char_nonempty a c : (1 <= List.length (esc_char o a c))%nat.
@@ -590,21 +600,13 @@ Qed.
 Lemma quote_neq s : quote o s <> s.
 Proof. intros H. pose proof (quote_longer s) as L. rewrite H in L. lia. Qed.
 
-(* corrected rendering: a key is printed bare iff it is an identifier, quoted otherwise *)
-Lemma key_repr_fixed_spec k :
-  (key_repr_fixed o k = k <-> IdentSpec k) /\ (key_repr_fixed o k = quote o k <-> ~ IdentSpec k).
-Proof.
-  unfold key_repr_fixed. rewrite <- is_ident_fixed_spec. destruct (is_ident_fixed o k).
-  - split; [tauto|]. split; [intros H; symmetry in H; apply quote_neq in H; contradiction | intros H; exfalso; apply H; reflexivity].
-  - split; [split; [intros H; apply quote_neq in H; contradiction | discriminate] | split; [discriminate | reflexivity]].
-Qed.
-
-(* the code's rendering, for keys that start with a letter or underscore *)
-Lemma key_repr_guarded k c t : k = c :: t -> is_letter_ o c = true ->
+(* keyRepr: a key is printed bare iff it is an identifier, quoted otherwise *)
+Lemma key_repr_spec k :
   (key_repr o k = k <-> IdentSpec k) /\ (key_repr o k = quote o k <-> ~ IdentSpec k).
 Proof.
-  intros Hk Hc. unfold key_repr. rewrite (is_ident_agrees k c t Hk Hc).
-  apply key_repr_fixed_spec.
+  unfold key_repr. rewrite <- is_ident_spec. destruct (is_ident o k).
+  - split; [tauto|]. split; [intros H; symmetry in H; apply quote_neq in H; contradiction | intros H; exfalso; apply H; reflexivity].
+  - split; [split; [intros H; apply quote_neq in H; contradiction | discriminate] | split; [discriminate | reflexivity]].
 Qed.
 
 End Keys.
@@ -744,45 +746,168 @@ Proof. intros H. unfold exit_status, go_int64. rewrite H. vm_compute. reflexivit
 
 (* ====================================================================== *)
 (** * rand *)
+
+(* binary64 facts needed: a valid finite float with exponent above the
+   subnormal range has a 53-bit mantissa *)
+Lemma digits2_pos_bounds m :
+  (2 ^ (Z.pos (SpecFloat.digits2_pos m) - 1) <= Z.pos m < 2 ^ (Z.pos (SpecFloat.digits2_pos m)))%Z.
+Proof.
+  induction m as [m IH|m IH|]; simpl SpecFloat.digits2_pos.
+  - rewrite Pos2Z.inj_succ. replace (Z.succ (Z.pos (SpecFloat.digits2_pos m)) - 1)%Z with (Z.succ (Z.pos (SpecFloat.digits2_pos m) - 1))%Z by lia.
+    rewrite !Z.pow_succ_r by lia. lia.
+  - rewrite Pos2Z.inj_succ. replace (Z.succ (Z.pos (SpecFloat.digits2_pos m)) - 1)%Z with (Z.succ (Z.pos (SpecFloat.digits2_pos m) - 1))%Z by lia.
+    rewrite !Z.pow_succ_r by lia. lia.
+  - simpl. lia.
+Qed.
+
+Lemma valid_normal_mantissa s m e :
+  SpecFloat.valid_binary FloatOps.prec FloatOps.emax (SpecFloat.S754_finite s m e) = true ->
+  (-1074 < e)%Z -> (2 ^ 52 <= Z.pos m < 2 ^ 53)%Z.
+Proof.
+  unfold SpecFloat.valid_binary, SpecFloat.bounded, SpecFloat.canonical_mantissa, SpecFloat.fexp, SpecFloat.emin.
+  intros H He. apply andb_true_iff in H as [H _]. apply Zeq_bool_eq in H.
+  change FloatOps.prec with 53%Z in H. change FloatOps.emax with 1024%Z in H.
+  assert (Z.pos (SpecFloat.digits2_pos m) = 53%Z) as D by lia.
+  pose proof (digits2_pos_bounds m) as B. rewrite D in B. exact B.
+Qed.
+
+Lemma prim2sf_one : Prim2SF 1 = SpecFloat.S754_finite false 4503599627370496 (-52).
+Proof. vm_compute. reflexivity. Qed.
+Lemma prim2sf_int31max : Prim2SF 2147483647 = SpecFloat.S754_finite false 9007199250546688 (-22).
+Proof. vm_compute. reflexivity. Qed.
+
+(* the accepted range [1, 2^31-1] (as the two float comparisons decide it)
+   truncates to an integer in [1, 2^31) — in particular never NaN, never <= 0 *)
+Lemma rand_domain_int32 upper :
+  PrimFloat.leb 1 upper = true -> PrimFloat.leb upper 2147483647 = true ->
+  (1 <= go_int32 upper < 2 ^ 31)%Z.
+Proof.
+  rewrite !leb_spec, prim2sf_one, prim2sf_int31max.
+  pose proof (Prim2SF_valid upper) as V.
+  unfold go_int32, float_trunc.
+  destruct (Prim2SF upper) as [s|s| |s m e]; unfold SpecFloat.SFleb, SpecFloat.SFcompare.
+  - discriminate.
+  - destruct s; discriminate.
+  - discriminate.
+  - destruct s; [discriminate|].
+    intros H1 H2.
+    assert (-52 <= e)%Z as E1.
+    { revert H1. destruct (Z.compare_spec (-52) e); intros H1; [lia | lia | discriminate]. }
+    assert (e <= -22)%Z as E2.
+    { revert H2. destruct (Z.compare_spec e (-22)); intros H2; [lia | lia | discriminate]. }
+    assert (e = -22 -> Z.pos m <= 9007199250546688)%Z as E3.
+    { intros ->. rewrite Z.compare_refl in H2.
+      remember 9007199250546688%positive as c eqn:Hc.
+      assert (m <= c)%positive as Hle.
+      { unfold Pos.le, Pos.compare. intros G. rewrite G in H2. discriminate. }
+      lia. }
+    pose proof (valid_normal_mantissa false m e V ltac:(lia)) as M.
+    destruct (0 <=? e)%Z eqn:P; [lia|].
+    assert (0 < 2 ^ (- e))%Z as Q by (apply Z.pow_pos_nonneg; lia).
+    assert (2 ^ (- e) <= 2 ^ 52)%Z as Q2 by (apply Z.pow_le_mono_r; lia).
+    assert (1 <= Z.pos m / 2 ^ (- e))%Z as L by (apply Z.div_le_lower_bound; lia).
+    assert (Z.pos m / 2 ^ (- e) < 2 ^ 31)%Z as U.
+    { apply Z.div_lt_upper_bound; [exact Q|].
+      destruct (Z.eq_dec e (-22)) as [->|Ne].
+      - specialize (E3 eq_refl). change (2 ^ (- -22) * 2 ^ 31)%Z with 9007199254740992%Z. lia.
+      - rewrite <- Z.pow_add_r by lia.
+        assert (2 ^ 54 <= 2 ^ (- e + 31))%Z by (apply Z.pow_le_mono_r; lia).
+        assert (2 ^ 53 < 2 ^ 54)%Z by (vm_compute; reflexivity). lia. }
+    assert (- 2 ^ 31 <= Z.pos m / 2 ^ (- e))%Z as L2 by (assert (- 2 ^ 31 < 0)%Z by (vm_compute; reflexivity); lia).
+    replace ((- 2 ^ 31 <=? Z.pos m / 2 ^ (- e)) && (Z.pos m / 2 ^ (- e) <? 2 ^ 31))%Z with true
+      by (symmetry; apply andb_true_iff; split; [apply Z.leb_le | apply Z.ltb_lt]; assumption).
+    lia.
+Qed.
+
 Section Rand.
 Variable o : oracles.
 Hypothesis rand_contract : forall n, (0 < n)%Z -> (0 <= o_rand o n < n)%Z.
 
-(* whatever is returned is an integer in [0, int32(n)); otherwise the documented
-   panic — or the host crash that rand_nan_refuted exhibits *)
-Lemma rand_range upper :
-  match rand_model o upper with
-  | ORet v => exists z, v = VNum (float_of_Z z) /\ (0 <= z < go_int32 upper)%Z /\ (1 <= go_int32 upper < 2 ^ 31)%Z
-  | OPanic BadArguments => PrimFloat.ltb upper 1 = true \/ PrimFloat.ltb 2147483647 upper = true
-  | OHostCrash => PrimFloat.ltb upper 1 = false /\ PrimFloat.ltb 2147483647 upper = false /\ (go_int32 upper <= 0)%Z
-  | _ => False
-  end.
+(* rand never reaches the host crash: NaN and everything outside [1, 2^31-1]
+   is rejected first, and what passes truncates to n >= 1 *)
+Lemma rand_no_host_crash upper : rand_model o upper <> OHostCrash.
 Proof.
-  unfold rand_model. destruct (PrimFloat.ltb upper 1) eqn:A; simpl; [left; reflexivity|].
-  destruct (PrimFloat.ltb 2147483647 upper) eqn:B; simpl; [right; reflexivity|].
-  destruct (go_int32 upper <=? 0)%Z eqn:C.
-  - apply Z.leb_le in C. tauto.
-  - apply Z.leb_gt in C. exists (o_rand o (go_int32 upper)). split; [reflexivity|].
-    split; [apply rand_contract; lia|]. split; [lia|].
-    unfold go_int32 in *. destruct (float_trunc upper) as [z|]; [|lia].
-    destruct ((- 2 ^ 31 <=? z) && (z <? 2 ^ 31))%Z eqn:D; [|lia].
-    apply andb_true_iff in D as [_ D]. apply Z.ltb_lt in D. exact D.
+  unfold rand_model. destruct (PrimFloat.leb 1 upper) eqn:A; simpl; [|discriminate].
+  destruct (PrimFloat.leb upper 2147483647) eqn:B; simpl; [|discriminate].
+  pose proof (rand_domain_int32 upper A B) as R.
+  destruct (go_int32 upper <=? 0)%Z eqn:C; [apply Z.leb_le in C; lia | discriminate].
 Qed.
 
-Lemma rand_fixed_range upper :
-  match rand_fixed o upper with
-  | ORet v => exists z, v = VNum (float_of_Z z) /\ (0 <= z < go_int32 upper)%Z
-  | OPanic BadArguments => PrimFloat.leb 1 upper && PrimFloat.leb upper 2147483647 = false
-  | OHostCrash => PrimFloat.leb 1 upper && PrimFloat.leb upper 2147483647 = true /\ (go_int32 upper <= 0)%Z
-  | _ => False
-  end.
+(* rand n: for 1 <= n <= 2^31-1 an integer in [0, int32(n)), for every other n
+   (NaN included) the documented panic — nothing else *)
+Lemma rand_range upper :
+  if PrimFloat.leb 1 upper && PrimFloat.leb upper 2147483647
+  then exists z, rand_model o upper = ORet (VNum (float_of_Z z)) /\ (0 <= z < go_int32 upper)%Z /\ (1 <= go_int32 upper < 2 ^ 31)%Z
+  else rand_model o upper = OPanic BadArguments.
 Proof.
-  unfold rand_fixed. destruct (PrimFloat.leb 1 upper && PrimFloat.leb upper 2147483647) eqn:A; simpl; [|reflexivity].
-  destruct (go_int32 upper <=? 0)%Z eqn:C.
-  - apply Z.leb_le in C. tauto.
-  - apply Z.leb_gt in C. exists (o_rand o (go_int32 upper)). split; [reflexivity|]. apply rand_contract. lia.
+  unfold rand_model. destruct (PrimFloat.leb 1 upper) eqn:A; simpl; [|reflexivity].
+  destruct (PrimFloat.leb upper 2147483647) eqn:B; simpl; [|reflexivity].
+  pose proof (rand_domain_int32 upper A B) as R.
+  destruct (go_int32 upper <=? 0)%Z eqn:C; [apply Z.leb_le in C; lia|].
+  exists (o_rand o (go_int32 upper)). split; [reflexivity|]. split; [apply rand_contract; lia | exact R].
 Qed.
 End Rand.
+
+(* ====================================================================== *)
+(** * test bookkeeping through the dispatcher *)
+Lemma args_accepted_variadic_any tys : args_accepted [] (Some TAny) tys = true.
+Proof. induction tys as [|t tys IH]; [reflexivity|]. simpl. exact IH. Qed.
+
+Lemma wrap_args_variadic_any args : wrap_args [] (Some TAny) args = map wrap_any args.
+Proof. induction args as [|a args IH]; [reflexivity|]. simpl. rewrite IH. reflexivity. Qed.
+
+(* the dispatcher on "test": no effect, no state change, testFunc on the any-wrapped arguments *)
+Lemma call_builtin_test o args st :
+  call_builtin o (s_ "test") args st = (test_func o (map wrap_any args), [], st).
+Proof.
+  unfold call_builtin.
+  replace (find (fun s => str_eqb (s_ (b_name s)) (s_ "test")) Gen.BuiltinSigs.builtin_sigs)
+    with (Some {| b_name := "test"; b_params := []; b_variadic := Some TAny; b_ret := TNone |})
+    by (vm_compute; reflexivity).
+  cbn [b_params b_variadic]. rewrite args_accepted_variadic_any, wrap_args_variadic_any. cbn [negb].
+  unfold name_is.
+  repeat match goal with
+         | |- context [str_eqb (s_ "test") (s_ ?l)] =>
+             let b := eval vm_compute in (str_eqb (s_ "test") (s_ l)) in
+             replace (str_eqb (s_ "test") (s_ l)) with b by (vm_compute; reflexivity)
+         end.
+  reflexivity.
+Qed.
+
+Definition test_calls (argss : list (list val)) : list (str * list val) := map (fun a => (s_ "test", a)) argss.
+
+(* a program that is a sequence of test calls: the bookkeeping of run_calls is
+   run_tests on the outcomes of testFunc *)
+Lemma run_calls_tests o ff argss : forall st t,
+  let '(_, _, t', stop) := run_calls o ff (test_calls argss) st t in
+  (t', stop) = run_tests ff (map (fun a => test_func o (map wrap_any a)) argss) t.
+Proof.
+  induction argss as [|a rest IH]; intros st t; [reflexivity|].
+  cbn [test_calls map run_calls run_tests]. rewrite call_builtin_test, str_eqb_refl.
+  destruct (account_test ff true (test_func o (map wrap_any a)) t) as [r t'].
+  destruct (stops r); [reflexivity|].
+  specialize (IH st t'). unfold test_calls in IH.
+  destruct (run_calls o ff (map (fun a0 => (s_ "test", a0)) rest) st t') as [[[crs effs] t''] stop].
+  cbn [app]. exact IH.
+Qed.
+
+(* the bookkeeping theorem for real programs of test calls *)
+Lemma test_bookkeeping_programs o ff argss st :
+  let outs := map (fun a => test_func o (map wrap_any a)) argss in
+  let '(_, _, t, stop) := run_calls o ff (test_calls argss) st ti_init in
+  let ex := executed ff outs in
+  t_total t = List.length ex /\
+  fail_count t = List.length (filter is_fail ex) /\
+  (success_count t + fail_count t = t_total t)%nat /\
+  t_errors t = fail_msgs ex /\
+  (stop = None <-> forallb (fun r => negb (ends_run ff r)) outs = true) /\
+  (classify stop t = RcOk <-> stop = None /\ fail_count t = 0%nat).
+Proof.
+  cbv zeta. pose proof (run_calls_tests o ff argss st ti_init) as B.
+  pose proof (test_bookkeeping ff (map (fun a => test_func o (map wrap_any a)) argss)) as T.
+  destruct (run_calls o ff (test_calls argss) st ti_init) as [[[crs effs] t] stop].
+  rewrite <- B in T. exact T.
+Qed.
 
 (* float constants for Props/C13.v (which does not import Floats, so that Print
    Assumptions shows the primitive operations with their qualified names) *)
